@@ -150,3 +150,20 @@ add("C03",
                                        "            return DateData(\n                date_obj=date_obj,\n                period=period,\n            )\n        except (OverflowError, ValueError):\n            return None\n        finally:\n            self._settings.DATE_ORDER = _order")], "silent"),
     V("twin-eviction-generator", "C03", [(DICT, "            for key in list(cache.keys()):\n                if key != self._settings.registry_key:\n                    cache.pop(key)\n                    break\n", "            cache.pop(next(k for k in cache if k != self._settings.registry_key))\n")], "silent"),
     )
+
+# ---------------------------------------------------------------- C20
+add("C20",
+    V("new-global-counter", "C20", [(DATE, "        if not isinstance(date_string, str):\n            raise TypeError(\"Input type must be str\")\n",
+                                     "        if not isinstance(date_string, str):\n            raise TypeError(\"Input type must be str\")\n        self._get_locale_loader()._loaded_locales.pop(\"zz\", None)\n")], "fire", "C20.R1"),
+    V("new-temporary-override", "C20", [(DP, "        date_obj, period = parse_method(date_string, settings=settings, tz=ptz)\n", "        settings.RETURN_AS_TIMEZONE_AWARE = True if ptz else settings.RETURN_AS_TIMEZONE_AWARE\n        date_obj, period = parse_method(date_string, settings=settings, tz=ptz)\n")], "fire", "C20.R1"),
+    V("last-result-memo-on-singleton", "C20", [(FRESH, "        date, period = self.parse(date_string, settings)\n", "        date, period = self.parse(date_string, settings)\n        self._last = (date_string, date)\n")], "fire", "C20.R1"),
+    V("relative-translations-made-settings-dependent", "C20", [(LOCALE, "                self._relative_translations = self._generate_relative_translations(\n                    normalize=False\n                )", "                self._relative_translations = self._generate_relative_translations(\n                    normalize=settings.NORMALIZE\n                )")], "fire", "C20.R1"),
+    V("loader-cache-partial-publication", "C20", [(LOADER, "                    locale = Locale(shortname, language_info=deepcopy(language_info))\n                    self._loaded_languages[lang] = language_info\n                    self._loaded_locales[shortname] = locale\n",
+                                                  "                    self._loaded_locales[shortname] = locale = Locale(shortname, language_info={})\n                    self._loaded_languages[lang] = language_info\n                    locale.info.update(deepcopy(language_info))\n")], "fire", "C20.R1"),
+    V("twin-repair-language-local", "C20", [(SEARCH, "    def search(self, shortname, text, settings):\n        self.get_current_language(shortname)\n        result = self.language.translate_search(text, settings=settings)\n        return result\n",
+                                             "    def search(self, shortname, text, settings):\n        language = self.loader.get_locale(shortname)\n        result = language.translate_search(text, settings=settings)\n        return result\n")], "silent",
+      note="repaired twin for F6: the per-call locale is kept in a local; the old setter is no longer reachable"),
+    V("twin-simplifications-built-then-published", "C20", [(LOCALE, "            if self._simplifications is None:\n                self._simplifications = []\n                simplifications = self._generate_simplifications(normalize=False)\n                for simplification in simplifications:\n                    pattern, replacement = list(simplification.items())[0]\n                    if not no_word_spacing:\n                        pattern = r\"(?<=\\A|\\W|_)%s(?=\\Z|\\W|_)\" % pattern\n                    pattern = re.compile(pattern, flags=re.I | re.U)\n                    self._simplifications.append({pattern: replacement})\n",
+                                                           "            if self._simplifications is None:\n                built = []\n                simplifications = self._generate_simplifications(normalize=False)\n                for simplification in simplifications:\n                    pattern, replacement = list(simplification.items())[0]\n                    if not no_word_spacing:\n                        pattern = r\"(?<=\\A|\\W|_)%s(?=\\Z|\\W|_)\" % pattern\n                    pattern = re.compile(pattern, flags=re.I | re.U)\n                    built.append({pattern: replacement})\n                self._simplifications = built\n")], "silent",
+      note="repaired twin for F7 (non-normalised list): build locally, publish once"),
+    )
